@@ -480,7 +480,7 @@ type StepResult struct {
 	PanicTrc  string
 	Events    []EventRec
 	Callbacks []CallbackRec
-	ModErr    error // error returned by a keeper API call played by the "other module"
+	ModErr    error  // error returned by a keeper API call played by the "other module"
 	Prepared  *State // restart only: the state after the zero-height preparation, when the restart failed later (export, validation, JSON, import)
 }
 
